@@ -30,6 +30,24 @@ if seeded:
                 f"{verdicts(before)} | {verdicts(d.get('checks'))} |\n")
     out.append(tbl)
 out.append((R / "docs/design_part1_d.md").read_text() if (R / "docs/design_part1_d.md").exists() else "")
+# inventory of the functions under contract, from the committed ledger (one line per real function / contract variant)
+try:
+    led = json.loads((R / "obligations.lock.json").read_text())
+    led = led.get("obligations", led)
+    per = {}
+    for k, v in led.items():
+        fn = k.rsplit(":", 1)[0]
+        per.setdefault(fn, [0, v.get("hash")])[0] += 1
+    inv = ("\n## I.11 Functions under contract (generated from obligations.lock.json)\n\n"
+           f"{len(per)} contract variants, {len(led)} obligations recorded as discharged on the committed tree (obligation ids are per clause / loop / operation site; "
+           "path instances are aggregated). `[label]` = a variant of one function (another parameter instantiation or state shape); `<op:...>` = an operator "
+           "implementation extracted from the operator table; `<from:NAME>` = the tail of a function from the first assignment to NAME; `<dispatch:F/T>` = the "
+           "implementation of a singledispatch function registered for type T.\n\n| function | obligations | AST hash |\n|---|---|---|\n")
+    for fn in sorted(per):
+        inv += f"| `{fn}` | {per[fn][0]} | {per[fn][1]} |\n"
+    out.append(inv)
+except Exception as e:  # noqa: BLE001
+    out.append(f"\n(inventory not available: {e})\n")
 out.append("\n---------------------------------------------------------------------------\n\n# Part II — original design (written before the build; superseded by Part I where they differ)\n\n")
 out.append((R / "docs/design_part2.md").read_text())
 (R / "DESIGN.md").write_text("".join(out))
